@@ -287,7 +287,8 @@ def run(ctx):
                 pts = set(range(len(rerun_ev) + 1))
             for k in sorted(pts):
                 hists.append(("kill partition rerun", [(("init",), None)] + allp + [(P(j0), k), (("finalise",), None)]))
-            for k in pick(n_fin, 14):
+            # the end of finalise (region index, consolidation) densely: that is where "finished" is decided
+            for k in sorted(set(pick(n_fin, 8)) | set(range(max(0, n_fin - 14), n_fin + 1))):
                 hists.append(("kill finalise", [(("init",), None)] + allp + [(("finalise",), k), (("finalise",), None)]))
             hists.append(("unencoded", [(("init",), None)] + allp[:-1] + [(("finalise",), None)]))
             for _ in range(40 if ctx.thorough else 8):
